@@ -719,6 +719,20 @@ class VarPattern:
     def to_var_pattern(x):
         if isinstance(x, VarPattern) or x is None:
             return x
+        if isinstance(x, str):
+            # The string form written by ``detype_var_pattern``: this is how
+            # a parent xonsh hands the setting to a nested xonsh.
+            if x.strip() == "None":
+                return None
+            m = re.fullmatch(r"VarPattern\((.*)\)", x.strip(), re.DOTALL)
+            if m is not None:
+                import ast
+
+                try:
+                    args = ast.literal_eval("(" + m.group(1) + ",)")
+                    return VarPattern(*args)
+                except (ValueError, SyntaxError, TypeError, re.error):
+                    pass
         raise ValueError(f"Cannot convert {x!r} to VarPattern")
 
     @staticmethod
